@@ -15,11 +15,31 @@ import "verif/internal/ref/boxwalk"
 // Anything not listed here must survive decode→encode bit-for-bit.
 type dcRow struct {
 	Type     string
-	Ver      int // -1 = any version
+	Ver      int // -1 = any version, verNot1 / verGE1 = the version classes the library itself branches on
 	From, To int // payload offsets, inclusive
 	Mask     byte
 	Class    string
 	Note     string
+}
+
+// Version classes: mvhd and tkhd use the version 0 layout for every version other than 1, sidx the version 1
+// layout for every version above 0 (decoder, Size and encoder agree), so the version 0 / version 1 rows apply to
+// the whole class.
+const (
+	verNot1 = -2
+	verGE1  = -3
+)
+
+func (r *dcRow) verMatch(ver int) bool {
+	switch r.Ver {
+	case -1:
+		return true
+	case verNot1:
+		return ver != 1
+	case verGE1:
+		return ver >= 1
+	}
+	return r.Ver == ver
 }
 
 var visualEntries = []string{"avc1", "avc3", "hvc1", "hev1", "encv", "vp08", "vp09", "av01"}
@@ -35,16 +55,16 @@ func buildDontCare() []dcRow {
 		// accepted and re-written with the defined size: undeclared trailing bytes are not kept. Applied only to
 		// byte-level deviations of a seed, never to seeds, library-encoded struct/tree deviations or whole files.)
 		// --- ISO/IEC 14496-12
-		{"mvhd", 0, 26, 35, 0xff, "reserved", "8.2.2: reserved(16), reserved(32)[2]"},
-		{"mvhd", 0, 36, 71, 0xff, "template", "8.2.2: matrix is written as the unity matrix"},
-		{"mvhd", 0, 72, 95, 0xff, "pre_defined", "8.2.2: pre_defined(32)[6]"},
+		{"mvhd", verNot1, 26, 35, 0xff, "reserved", "8.2.2: reserved(16), reserved(32)[2]"},
+		{"mvhd", verNot1, 36, 71, 0xff, "template", "8.2.2: matrix is written as the unity matrix"},
+		{"mvhd", verNot1, 72, 95, 0xff, "pre_defined", "8.2.2: pre_defined(32)[6]"},
 		{"mvhd", 1, 38, 47, 0xff, "reserved", "8.2.2 (version 1 offsets)"},
 		{"mvhd", 1, 48, 83, 0xff, "template", "8.2.2 unity matrix (version 1 offsets)"},
 		{"mvhd", 1, 84, 107, 0xff, "pre_defined", "8.2.2 (version 1 offsets)"},
-		{"tkhd", 0, 16, 19, 0xff, "reserved", "8.3.2: reserved(32) after track_ID"},
-		{"tkhd", 0, 24, 31, 0xff, "reserved", "8.3.2: reserved(32)[2]"},
-		{"tkhd", 0, 38, 39, 0xff, "reserved", "8.3.2: reserved(16) after volume"},
-		{"tkhd", 0, 40, 75, 0xff, "template", "8.3.2: matrix is written as the unity matrix"},
+		{"tkhd", verNot1, 16, 19, 0xff, "reserved", "8.3.2: reserved(32) after track_ID"},
+		{"tkhd", verNot1, 24, 31, 0xff, "reserved", "8.3.2: reserved(32)[2]"},
+		{"tkhd", verNot1, 38, 39, 0xff, "reserved", "8.3.2: reserved(16) after volume"},
+		{"tkhd", verNot1, 40, 75, 0xff, "template", "8.3.2: matrix is written as the unity matrix"},
 		{"tkhd", 1, 24, 27, 0xff, "reserved", "8.3.2 (version 1 offsets)"},
 		{"tkhd", 1, 36, 43, 0xff, "reserved", "8.3.2 (version 1 offsets)"},
 		{"tkhd", 1, 50, 51, 0xff, "reserved", "8.3.2 (version 1 offsets)"},
@@ -54,14 +74,10 @@ func buildDontCare() []dcRow {
 		{"hdlr", -1, 12, 23, 0xff, "reserved", "8.4.3: reserved(32)[3]"},
 		{"smhd", -1, 6, 7, 0xff, "reserved", "12.2.2: reserved(16)"},
 		{"sidx", 0, 20, 21, 0xff, "reserved", "8.16.3: reserved(16)"},
-		{"sidx", 1, 28, 29, 0xff, "reserved", "8.16.3: reserved(16) (version 1 offsets)"},
+		{"sidx", verGE1, 28, 29, 0xff, "reserved", "8.16.3: reserved(16) (version 1 offsets)"},
 		{"tfra", -1, 8, 10, 0xff, "reserved", "8.8.10: reserved(26)"},
 		{"tfra", -1, 11, 11, 0xc0, "reserved", "8.8.10: reserved(26), last two bits"},
 		{"colr", -1, 10, 10, 0x7f, "reserved", "12.1.5 nclx: reserved(7) after full_range_flag"},
-		{"alou", 0, 4, 4, 0xc0, "reserved", "12.2.7: reserved bits before downmix_ID"},
-		{"tlou", 0, 4, 4, 0xc0, "reserved", "12.2.7"},
-		{"alou", 1, 5, 6, 0xc0, "reserved", "12.2.7 (version 1: reserved(2) before EQ_set_ID and before downmix_ID)"},
-		{"tlou", 1, 5, 6, 0xc0, "reserved", "12.2.7"},
 		// --- ISO/IEC 23001-7
 		{"tenc", 0, 4, 5, 0xff, "reserved", "8.2: reserved(8), reserved(8) in version 0"},
 		{"tenc", -1, 4, 4, 0xff, "reserved", "8.2: reserved(8)"},
@@ -94,7 +110,7 @@ func buildDontCare() []dcRow {
 func dontCareMask(typ string, ver, poff int, x []byte, i int) byte {
 	var m byte
 	for _, r := range c01DontCare {
-		if (r.Type == typ || r.Type == "*") && (r.Ver < 0 || r.Ver == ver) && poff >= r.From && poff <= r.To {
+		if (r.Type == typ || r.Type == "*") && r.verMatch(ver) && poff >= r.From && poff <= r.To {
 			m |= r.Mask
 		}
 	}
@@ -104,6 +120,31 @@ func dontCareMask(typ string, ver, poff int, x []byte, i int) byte {
 	}
 	p := x[ps:]
 	switch typ {
+	case "alou", "tlou":
+		// reserved: 12.2.7 LoudnessBaseBox: reserved(2) before EQ_set_ID (version >= 1) and reserved bits before
+		// downmix_ID, in every loudness base (the library keeps 8 bits of downmix_ID: two bits are dropped)
+		pos, n := 4, 1
+		if ver >= 1 {
+			if len(p) < 5 {
+				break
+			}
+			pos, n = 5, int(p[4]&0x3f)
+		}
+		for a := 0; a < n && pos < len(p); a++ {
+			if ver >= 1 {
+				if poff == pos {
+					m |= 0xc0
+				}
+				pos++
+			}
+			if poff == pos {
+				m |= 0xc0
+			}
+			if pos+6 >= len(p) {
+				break
+			}
+			pos += 7 + 3*int(p[pos+6])
+		}
 	case "avc1", "avc3", "hvc1", "hev1", "encv", "vp08", "vp09", "av01":
 		// padding: compressorname is a 32-byte field: length byte, string, padding (12.1.3)
 		if len(p) > 42 && poff >= 43 && poff <= 73 && poff > 42+int(p[42]) {
